@@ -59,16 +59,27 @@ def small_bt(rng, fam, maxlen):
             cuts = sorted(set(rng.integers(1, max(2, L), size=int(rng.integers(0, 6))).tolist())) if L > 1 else []
             e = [0] + [x for x in cuts if 0 < x < L] + [L]
         elif fam == "trap":
+            if ci == 0:
+                bb = int(rng.integers(1, 6))
+                kind = int(rng.integers(2))
             nb = int(rng.integers(2, 5)) if ci == 0 else int(rng.integers(1, 4))
-            bb = int(rng.integers(1, 6))
             b = bb
-            e = [i * bb for i in range(nb)] + [(nb - 1) * bb + bb + int(rng.integers(1, bb + 2))]
+            if kind == 0 or (kind == 1 and ci == 0):
+                # (i) last bin longer than the others  /  first chromosome of kind (ii): plain fixed
+                last = bb + int(rng.integers(1, bb + 2)) if kind == 0 else int(rng.integers(1, bb + 1))
+                e = [i * bb for i in range(nb)] + [(nb - 1) * bb + last]
+            elif ci == 1 or rng.random() < 0.4:
+                e = [0, bb + int(rng.integers(1, 2 * bb + 2))]          # (ii) one-bin chromosome longer than bb
+            else:
+                e = gen.fixed_edges(int(rng.integers(1, nb * bb + 1)), bb)
         elif fam == "mixed":
             r = rng.random()
             e = [0, int(rng.integers(1, b + 1))] if r < 0.4 else gen.fixed_edges(L, b)
         bt.append([name, [int(x) for x in e]])
     if fam == "variable" and gen.bt_fixed_width(bt) is not None:
         bt[0][1] = [0, 3, 4, 9]
+    if fam == "trap" and not gen.bt_is_trap(bt):
+        bt.append(["trapX", [0, 3 * b + 1]])
     return bt
 
 
